@@ -28,7 +28,7 @@ ASSUMPTIONS = [
     "'!' is only generated on aliases of bool options; '# default:' markers are only put on new-name lines (the tool never writes one on an alias)",
     "string values in the eval_string clause are free of quotes and backslashes",
 ]
-BUDGET = {"quick": {"examples": 3200}, "thorough": {"examples": 250000, "deadline_s": 1500}}
+BUDGET = {"quick": {"examples": 3200}, "thorough": {"examples": 250000, "deadline_s": 900}}
 
 CFG = gen.cfg(max_syms=12, p_choice=12)
 
